@@ -1194,7 +1194,7 @@ a default was set — `encodeBody(value, mediaType)`. `ds` = `!Options.SkipSetti
 Without `DefaultsSet` the validator is the one of `visit`. -/
 def validateValue (enc exro ds : Bool) (s : RS) (v : V) : Outcome :=
   if !ds then (if visit exro s v then .ok else .schemaErr)
-  else if dfltUnderNot s || (!enc && nestedDflt s) then .unmodelled
+  else if dfltUnderNot s || (!enc && nestedDflt s && firesD exro s v) then .unmodelled
   else match visD true exro s v with
     | none => .schemaErr
     | some _ => if firesD exro s v && !enc then .rewriteErr else .ok
